@@ -354,7 +354,35 @@ def run_lines(ctx, name, lines, cdir, trace=None, harness_cmd=None, inst_div=Non
             f.write(json.dumps(o) + '\n')
     outdir = os.path.join(cdir, 'trace')
     shards = 1 if len(lines) < 4 else max(16, min(512, len(lines) // 3000))
-    hr = core.run_harness(ctx, [harness_cmd, '--in', inp, '--out', outdir, '--shards', str(shards)])
+    try:
+        hr = core.run_harness(ctx, [harness_cmd, '--in', inp, '--out', outdir, '--shards', str(shards)])
+    except core.HarnessKilled as hk:
+        # bisect for one input line that kills the process on its own (deterministic code under test)
+        cand = list(range(len(lines)))
+        def dies(idx):
+            sub = os.path.join(cdir, 'bisect.ndjson')
+            with open(sub, 'w') as f:
+                for k in idx:
+                    f.write(json.dumps(lines[k]) + '\n')
+            shutil.rmtree(os.path.join(cdir, 'bisect_out'), ignore_errors=True)
+            try:
+                core.run_harness(ctx, [harness_cmd, '--in', sub, '--out', os.path.join(cdir, 'bisect_out'), '--shards', '1'])
+                return False
+            except core.HarnessKilled:
+                return True
+        if not dies(cand):
+            raise
+        while len(cand) > 1:
+            half = cand[:len(cand) // 2]
+            cand = half if dies(half) else cand[len(cand) // 2:]
+            if len(cand) == 1 and not dies(cand):
+                raise        # needs a combination of lines: stays a tool error
+        shutil.rmtree(outdir, ignore_errors=True)
+        shutil.rmtree(os.path.join(cdir, 'bisect_out'), ignore_errors=True)
+        k = cand[0]
+        return {'errors': [], 'instances': 1, 'events': 0, 'shards': 0, 'nontrivial': {}, 'samples': [],
+                'sigs': [{'sig': ['C12', 'Total', 'process', 'killed-by-signal'], 'inst': k * 8, 'ev': 0, 'module': trace, 'line': lines[k],
+                          'detail': str(hk)[-400:]}]}
     if 'hang_line' in hr:
         k = hr['hang_line']
         shutil.rmtree(outdir, ignore_errors=True)
